@@ -130,6 +130,7 @@ class Evaluator:
         self.funcs = funcs or {}
         self.on_call = on_call
         self.modset = modset  # dotted "self.m" -> set of self attributes the method may assign (None: not a method)
+        self.fallback: Optional[Callable] = None  # (state, call ast, dotted, args) -> value | NotImplemented, for calls that are not interpreted
         self.inline: Optional[Callable] = None  # dotted "self.m" -> FunctionDef to interpret at statement level (else havoc by mod-set)
         self.depth = 0
         self.max_paths = max_paths
@@ -311,6 +312,10 @@ class Evaluator:
             self.on_call(st, c, d, args)
         if d in self.funcs:
             return self.funcs[d](st, *args)
+        if self.fallback is not None:
+            r = self.fallback(st, c, d, args)
+            if r is not NotImplemented:
+                return r
         # effects of code that is not interpreted: a header map handed to it is no longer known;
         # a method of the same object may assign the attributes in its mod-set
         is_hdr_method = isinstance(c.func, ast.Attribute) and isinstance(self.ev(c.func.value, st), HeaderMap)
@@ -362,7 +367,12 @@ class Evaluator:
             m = c.func.attr
             if recv is None:
                 raise Raised("AttributeError")
-            if isinstance(recv, str) and m in _STR_METHODS and all(a is not UNK for a in args) and not kwargs:
+            if isinstance(recv, list) and m == "append" and len(args) == 1 and not kwargs:
+                recv.append(args[0])
+                return None
+            if isinstance(recv, (str, bytes)) and m == "join" and len(args) == 1 and isinstance(args[0], (list, tuple)) and all(isinstance(x, type(recv)) for x in args[0]):
+                return recv.join(args[0])
+            if isinstance(recv, (str, bytes)) and m in _STR_METHODS and all(a is not UNK for a in args) and not kwargs:
                 try:
                     return getattr(recv, m)(*args)
                 except Exception:
